@@ -291,8 +291,27 @@ def enc(case):
             case['nuniv'], opt(case['self_id']), [enc_op(o) for o in case['history']]]
 
 
+def _removes_registered_only(case):
+    """ASSUMPTIONS[0]: remove_model only for registered models (also keeps shrunk cases inside the assumption)"""
+    reg = list(case['ctor_models'])
+    states = set(s for s, _ in case['machine']['states'])
+    for o in case['history']:
+        if o[0] == 'state':
+            states.add(o[1])
+        elif o[0] == 'add_model':
+            if o[1] not in reg and (o[2] is None or o[2] in states):
+                reg.append(o[1])
+        elif o[0] == 'remove_model':
+            if o[1] not in reg:
+                return False
+            reg.remove(o[1])
+    return True
+
+
 def in_envelope(case):
-    return not case.get('malformed', False)
+    if case['kind'] == 1:
+        return True
+    return not case.get('malformed', False) and _removes_registered_only(case)
 
 
 def _canon_world(w):
@@ -332,12 +351,13 @@ class CaseTimeout(Exception):
     pass
 
 
-_TIMEOUT = [4.0]    # seconds per case; 1 after the first timeout in this process (keeps shrinking fast)
+_TIMEOUT = [60.0]   # wall seconds per case (normal cases take milliseconds; generous because the box may be
+                    # loaded); 5 after the first timeout in this process (keeps shrinking of a deadlock fast)
 _HIT = [False]
 
 
 def _alarm(signum, frame):
-    _TIMEOUT[0] = 1.0
+    _TIMEOUT[0] = 5.0
     _HIT[0] = True
     raise CaseTimeout('case did not finish in time (deadlock?)')
 
